@@ -38,7 +38,7 @@ SPECS["C09"] = ("""property C09: at most one event per replaceable address; newe
    Theorems about the abstract store ADb.v for ALL histories (induction over operation lists).
    addr_of e = (kind, author, "") for kinds 0, 3, 10000-19999; (kind, author, d) for kinds
    30000-39999 with a d tag; equality of addresses is equality of all bytes and of the length.""",
-  DBIMP, [
+  DBIMP + "\nFrom Pocket Require Import DbIdInv DbIndexInv KeyOrder DbAddr.", [
   ("C09_at_most_one",
    "forall ops names e1 e2 a, let st := a_run ops (a_init names) in\n    In e1 (live st) -> In e2 (live st) -> addr_of e1 = Some a -> addr_of e2 = Some a -> e1 = e2",
    "at_most_one_per_address", "every reachable state, every address"),
@@ -54,6 +54,9 @@ SPECS["C09"] = ("""property C09: at most one event per replaceable address; newe
   ("C09_addresses_independent",
    "forall st e st' x, a_store st e = (st', Ok tt) -> e_kind e <> 5 -> In x (live st) -> addr_of x <> addr_of e -> In x (live st')",
    "other_addresses_untouched", "holders of any other address (any byte or the length of d, author, kind) and non-replaceable events survive"),
+  ("C09_at_most_one_concrete",
+   "forall ops names e1 e2, ops_wfe ops -> let s := c_run ops (db_init names) in\n    get_event_by_id s (e_id e1) = Ok (Some e1) -> get_event_by_id s (e_id e2) = Ok (Some e2) ->\n    same_address e1 e2 -> e1 = e2",
+   "at_most_one_per_address_concrete", "the CONCRETE store (index tables, padded/truncated keys, range scans in memcmp order), every reachable state: same author + same replaceable kind, or same author + same parameterized kind + same d (every byte and the length) => the same event"),
   ("C09_kind_classes",
    "forall k, (is_replaceable k = true <-> k = 0 \\/ k = 3 \\/ (10000 <= k < 20000)) /\\\n    (is_ephemeral k = true <-> 20000 <= k < 30000) /\\ (is_param_replaceable k = true <-> 30000 <= k < 40000)",
    "kind_classes", ""),
@@ -166,16 +169,21 @@ SPECS["C05"] = ("""property C05: queries return exactly the matching events, new
    min(limit, qualifying); every qualifying event is in the unlimited answer.  Proved of the CONCRETE
    planner (Db.find_events, all seven plans) for every state: soundness (results stored, matching,
    screened, newest first, duplicate-free, within the limit, redacted flag sound), no panic, scraping
-   refusal only when justified.  COMPLETENESS of the plans ("every qualifying event is found", i.e.
-   find_events = a_query up to ties at the cut) needs the index invariants; it is checked by the
-   differential run on every generated history and is not yet a Coq theorem (DESIGN.md C05).""",
-  DBIMP + "\nFrom Pocket Require Import DbQuerySound.", [
+   refusal only when justified; and COMPLETENESS of all seven plans for every reachable state when the
+   limit exceeds the size of every index table (DbQueryComplete.v, on top of the global index invariant,
+   the memcmp order of the keys and at-most-one-per-address): the answer is exactly the qualifying set.
+   Still decided only per run: the newest-k choice when a scan IS cut short by the limit (the moving
+   since optimisation), checked against a_query modulo ties at the cut on every generated history.""",
+  DBIMP + "\nFrom Pocket Require Import DbQuerySound DbIdInv DbIndexInv KeyOrder DbAddr DbQueryComplete.", [
   ("C05_query_spec_meaning_partial",
    "forall st f screen,\n    (forall x, In x (a_query st f screen) -> In x (live st) /\\ spec_matches f x = true /\\ screen x = SMatch) /\\\n    desc_sorted (a_query st f screen) /\\\n    len (a_query st f screen) = N.min (f_limit f) (len (a_qualifying st f screen)) /\\\n    (forall x, In x (live st) -> spec_matches f x = true -> screen x = SMatch -> In x (a_qualifying st f screen)) /\\\n    a_query st f screen = ltake (f_limit f) (a_qualifying st f screen)",
    "a_query_meaning", ""),
   ("C05_concrete_planner_sound",
    "forall s f screen now allow_scraping allow_limit allow_seconds out red,\n    find_events s f screen now allow_scraping allow_limit allow_seconds = Ok (out, red) ->\n    Forall (good s f screen) out /\\ desc_sorted out /\\ NoDup (map okey out) /\\ len out <= f_limit f /\\ (red = true -> redsrc s f screen)",
    "find_events_sound", "EVERY store state (no invariant assumed), every plan: results are stored events read through an index entry that match and were screened Match; newest first; no two with the same (created_at, id); at most limit; redacted flag sound"),
+  ("C05_answer_exact_when_limit_exceeds_store",
+   "forall ops names f screen now allow_scraping allow_limit allow_seconds out red,\n    ops_wfe ops -> let s := c_run ops (db_init names) in\n    filter_ok f -> limit_exceeds_store s f ->\n    find_events s f screen now allow_scraping allow_limit allow_seconds = Ok (out, red) ->\n    forall x, In x out <-> (get_event_by_id s (e_id x) = Ok (Some x) /\\ spec_matches f x = true /\\ screen x = SMatch)",
+   "find_events_exact_reachable", "COMPLETENESS of all seven plans: every reachable state of the concrete store, every filter with 32-byte authors, u16 kinds, one-letter tag constraint names, whose limit exceeds the size of every index table (no scan is cut short): the answer is EXACTLY the retrievable events that match and pass the screen - whichever index serves the filter (ids / author+kind incl. the replaceable early stop / author+tag / kind+tag / tag / author / scrape)"),
   ("C05_query_never_panics",
    "forall s f screen now allow_scraping allow_limit allow_seconds, lettered f ->\n    find_events s f screen now allow_scraping allow_limit allow_seconds <> Panic",
    "find_events_no_panic", "every state, every filter whose tag constraints have non-empty names (the only ones the JSON syntax and the constructors produce)"),
@@ -189,6 +197,26 @@ Example C05_example :
   exists s1, store_event (db_init []) e = (s1, Ok 8) /\\
              find_events s1 f (fun _ => SMatch) 1000 false 0 0 = Ok ([e], false).
 Proof. vm_compute. eexists. split; reflexivity. Qed.
+(* non-vacuity of the exactness theorem: a tag query over a store of two events, limit 10 *)
+Example C05_exact_example :
+  let pk := repeat 2 32 in
+  let e1 := mkE (repeat 1 32) pk (repeat 3 64) 1 5 [[[116]; [120]]] [] in
+  let e2 := mkE (repeat 9 32) pk (repeat 3 64) 1 6 [[[116]; [121]]] [] in
+  let ops := [CStore e1; CStore e2] in
+  let f := mkF [] [] [] [[[116]; [120]]] 0 100 10 in
+  ops_wfe ops /\\ filter_ok f /\\ limit_exceeds_store (c_run ops (db_init [])) f /\\
+  find_events (c_run ops (db_init [])) f (fun _ => SMatch) 1000 false 0 0 = Ok ([e1], false).
+Proof.
+  cbv zeta. split; [|split; [|split]].
+  - assert (W : forall i t tg, wf_ev (mkE (repeat i 32) (repeat 2 32) (repeat 3 64) 1 t tg []) <-> (i < 256 /\\ t <= U64MAX)).
+    { intros i t tg. unfold wf_ev, wf_id32. cbn [e_id e_created e_pk e_kind]. split.
+      - intros ((_ & Wb) & Ht & _). split; [inversion Wb; assumption|exact Ht].
+      - intros [Hi Ht]. split; [split; [reflexivity|apply Forall_forall; intros b Hb; apply repeat_spec in Hb; subst b; exact Hi]|]. split; [exact Ht|]. split; [reflexivity|lia]. }
+    repeat constructor; apply W; unfold U64MAX; lia.
+  - unfold filter_ok. cbn [f_until f_since f_authors f_kinds f_tags]. repeat split; try (unfold U64MAX; lia); repeat constructor.
+  - intros T HT. cbn [In] in HT. destruct HT as [<-|[<-|[<-|[<-|[<-|[<-|[]]]]]]]; vm_compute; reflexivity.
+  - vm_compute. reflexivity.
+Qed.
 """)
 
 SPECS["C16"] = ("""property C16: reopen and rebuild preserve everything observable.
